@@ -15,6 +15,8 @@ class R { head: D; rest: Opt(R) }
 Rpt(item, k) = item{k}
 Id(e) = e
 Sh(x) = Id([(let x = D in `x`), `x`])
+Tw(D) = [D, D]
+class Cp(N) { xs: "a"{N}; rest: W? }
 class F { n: N; ws: Rpt(/[ab]/, n); let m: N; more: Opt(Rpt(item="!", k=m)) }
 '''
 VARS = ['x', 'y', 'n']
@@ -149,6 +151,9 @@ SHADOW_FIXED = [
     r'Sh(`7`)',
     r'let n = N in Id([(let n = N in "a"{n}), "b"{n}])',
     r'let x = W in Rpt([(let x = D in `x`), `x`], `1`)',
+    # a parameter or a let variable NAMED LIKE A RULE of the grammar: inside the body the name is the bound value
+    r'Tw(W)', r'Tw("a")', r'[Tw(W), D]', r'Cp(`2`)', r'[Cp(`1`), Cp(`2`)]',
+    r'let N = `2` in ["a"{N}, `N`]', r'let D = "a" in [D, D, `D`]', r'let W = N in Rpt("a", W)',
 ]
 CLASS_FIXED = [
     ('class T { a: "a"; b: (let a = "b" in `a`); c: `a` }', 'T', True),
@@ -239,9 +244,45 @@ def mechanism_of(r, case, ix, ms):
     return 'scoping'
 
 
+RENAMED_LOCALS = [
+    # (grammar with a local named like one of its rules, the same grammar with the local under a name of its own, inputs):
+    # which binder a name refers to is decided by the translator's scope analysis - judged here on the implementation
+    # alone, by renaming the local
+    ('Tv(D) = [D, D]\nstart = Tv(W) | Tv(D)\n', 'Tv(zq) = [zq, zq]\nstart = Tv(W) | Tv(D)\n', ['ab', 'aba', '12', 'a1', '']),
+    ('Bo(it) = [it, it]\nTv(D) = Bo(D)\nstart = Tv(W) | Tv(D)\n', 'Bo(it) = [it, it]\nTv(zq) = Bo(zq)\nstart = Tv(W) | Tv(D)\n', ['ab', '12', 'a1', '']),
+    ('class Cq(N) { xs: "a"{N}; rest: W? }\nstart = [Cq(`1`), Cq(`2`)]\n', 'class Cq(zq) { xs: "a"{zq}; rest: W? }\nstart = [Cq(`1`), Cq(`2`)]\n', ['aaa', 'aaab', 'aa', '']),
+    ('start = let N = `2` in ["a"{N}, `N`]\n', 'start = let zq = `2` in ["a"{zq}, `zq`]\n', ['aa', 'a', 'aaa', '']),
+    ('Ap(W, D) = [W, D("x")]\nOne(q) = q\nstart = Ap("a", One) | Ap(D, One)\n', 'Ap(zq, zr) = [zq, zr("x")]\nOne(q) = q\nstart = Ap("a", One) | Ap(D, One)\n', ['ax', '1x', 'abx', '']),
+    ('class K2 { W: D; tail: Rpt("a", W)? }\nstart = K2\n', 'class K2 { zq: D; tail: Rpt("a", zq)? }\nstart = K2\n', ['2aa', '1a', '1', '']),
+]
+
+
+def renamed_locals(R):
+    import sys
+    sys.path.insert(0, core.REPO)
+    from sourcer import Grammar
+    from .c11 import outcome
+    for a, b, texts in RENAMED_LOCALS:
+        R.count('locals-named-like-rules', a, nontrivial=True)
+        try:
+            ga, gb = Grammar(a + PRELUDE), Grammar(b + PRELUDE)
+        except Exception as e:                  # noqa
+            R.counterexample('locals-named-like-rules', 'grammar-rejected:' + type(e).__name__, {'grammar': a, 'renamed': b}, 'two grammar modules', str(e)[:150])
+            continue
+        for t in texts:
+            oa, ob = outcome(ga, t), outcome(gb, t)
+            oa = oa.replace('W=', 'zq=').replace('N=', 'zq=')
+            if oa != ob:
+                R.counterexample('locals-named-like-rules', 'local-named-like-a-rule-means-the-rule', {'grammar': a, 'renamed': b, 'text': t}, ob, oa)
+                break
+        else:
+            R.traces += 1
+
+
 def run(R):
     R.build()
     R.prove('Props/C05.v')
+    renamed_locals(R)
     rnd = random.Random(R.seed)
     jobs = jobs_for(R.tier, rnd)
     R.extra['grammars'] = len(jobs)
